@@ -29,9 +29,16 @@ PY
       echo "$out" | grep -q '^VIOLATION' && caught=1
     done
   else
-    out=$(VERIF_REPO=$wt VERIF_EVIDENCE=/tmp/rg_ev_$slot.json checks/check $prop quick 2>&1)
-    ran="$prop:all"
-    echo "$out" | grep -q '^VIOLATION' && caught=1
+    # no harness named: the checks named as "checks/check Cxx" in the detection text, else the property's own
+    cks=$(python3 -c "
+import json,re
+m=json.load(open('$meta')); c=sorted(set(re.findall(r'checks/check (C[0-9][0-9])', m.get('detection',''))))
+print(' '.join(c) if c else m['breaks_property'])")
+    for c in $cks; do
+      out=$(VERIF_REPO=$wt VERIF_EVIDENCE=/tmp/rg_ev_$slot.json checks/check $c quick 2>&1)
+      ran="$ran $c:all"
+      echo "$out" | grep -q '^VIOLATION' && caught=1
+    done
   fi
   if [ $caught = 1 ]; then echo "$id $prop caught$ran"; else echo "$id $prop MISSED$ran"; fi
 }
